@@ -170,6 +170,12 @@ class Machine:
             return r
         if c in ("std::mem::take", "std::mem::replace", "std::mem::swap", "core::mem::take", "core::mem::replace", "core::mem::swap"):
             return self._mem_model(c.rsplit("::", 1)[-1], raw, a)
+        if c.endswith("String::clear") or c.endswith("String::truncate"):
+            tgt, cur = raw[0], a[0]
+            if isinstance(tgt, absint.Ptr) and isinstance(cur, str):
+                tgt.set("" if c.endswith("clear") else (cur[:a[1]] if isinstance(a[1], int) else cur))
+                return []
+            return UNKNOWN
         if c.endswith("String::push") or c.endswith("String::push_str") or c.endswith("String::insert") or c.endswith("String::insert_str"):
             tgt, cur = raw[0], a[0]
             if isinstance(tgt, absint.Ptr) and isinstance(cur, str):
@@ -186,7 +192,7 @@ class Machine:
         r = self._model(c, a, tt, g)
         if r is not NOT:
             return r
-        h = self.fb.by_path(c, self.crate) if c else None
+        h = (self.fb.by_call(tt, self.crate) or self.fb.by_path(c, self.crate)) if c else None
         if h is None and c and (tt.get("fn") or {}).get("resolved") is None and raw:
             # a trait method called on a generic receiver: dispatch on the abstract value's type
             recv = a[0]
@@ -207,7 +213,8 @@ class Machine:
             # an external call we have no model for: if it is handed a `&mut` to abstract state it may change it behind our back
             # — refuse to continue (the row becomes UNDECIDED) rather than compute with stale state
             for x, ty in zip(raw, tt.get("argtys") or []):
-                if ty.startswith("&mut ") and isinstance(absint.deref(x), (list, Map, Enum, Iter)) and not ty.startswith("&mut std::fmt::Formatter"):
+                if ty.startswith("&mut ") and (isinstance(absint.deref(x), (list, Map, Enum, Iter)) or
+                                              (isinstance(x, absint.Ptr) and isinstance(absint.deref(x), str))) and not ty.startswith("&mut std::fmt::Formatter"):
                     raise Stuck("no model for %s, which takes a mutable reference to abstract state" % c)
         if tt.get("fn") is None and a:                      # call through a fn pointer / closure value held in a local
             fv = absint.operand(env, tt["func"]) if isinstance(tt.get("func"), dict) else UNKNOWN
@@ -351,6 +358,8 @@ class Machine:
         """text of `value` as its Display / Debug impl in the crate prints it: Text with holes for opaque parts"""
         if isinstance(value, Text):
             return value
+        if value is UNKNOWN or not isinstance(value, (Enum, list, str, int, bool)):
+            return Text([Hole(value, ty, kind)]).flat()            # an opaque token prints as itself
         if isinstance(value, (str,)):
             return value if kind == "display" else repr(value)
         if isinstance(value, bool):
@@ -413,9 +422,34 @@ class Machine:
             return any(c == n or c.endswith(n) for n in names)
         # ---- pass-through (std wrappers only: an impl written in the crate, e.g. Deref for Located<T>, is followed instead)
         lf = self.fb.by_path(c, self.crate)
-        if lf is not None and not lf.derived and isinstance(a0, (Enum, list)) and \
-                end in ("deref", "deref_mut", "as_ref", "as_mut", "borrow", "borrow_mut", "into", "from", "to_string"):
+        if lf is not None and isinstance(a0, (Enum, list)) and (end in ("into", "from") or (not lf.derived and end in (
+                "deref", "deref_mut", "as_ref", "as_mut", "borrow", "borrow_mut", "to_string"))):
             return NOT
+        if c.endswith("<impl str>::parse") or c.endswith("str::parse"):
+            # text -> number, for the integer / float type the call (or the generic helper it sits in) is instantiated with
+            gens = ((tt or {}).get("fn") or {}).get("generics") or []
+            prims = ("i8", "i16", "i32", "i64", "u8", "u16", "u32", "u64", "usize", "isize", "f32", "f64")
+            ty = gens[0] if gens and gens[0] in prims else next((x for fr in reversed(self.gen_stack) for x in reversed(fr) if x in prims), None)
+            if ty is None and g is not None and tt is not None:
+                dty = g.local_ty(tt["dest"]["local"]) or ""
+                ty = next((p_ for p_ in prims if "Result<%s" % p_ in dty), None)
+            if not isinstance(a0, str) or ty is None:
+                return UNKNOWN
+            if ty.startswith("f"):
+                try:
+                    float(a0)
+                    return ok(("real", a0)) if a0.strip() == a0 and a0 not in ("", "+", "-") else err(("error-token", "ParseFloatError"))
+                except ValueError:
+                    return err(("error-token", "ParseFloatError"))
+            try:
+                v = int(a0) if a0.strip() == a0 and "_" not in a0 else None
+            except ValueError:
+                v = None
+            bits = {"i8": 8, "i16": 16, "i32": 32, "i64": 64, "isize": 64, "u8": 8, "u16": 16, "u32": 32, "u64": 64, "usize": 64}[ty]
+            lo, hi = (0, 2 ** bits) if ty.startswith("u") else (-2 ** (bits - 1), 2 ** (bits - 1))
+            if v is None or not lo <= v < hi or (ty.startswith("u") and a0.startswith("-")):
+                return err(("error-token", "ParseIntError"))
+            return ok(v)
         if m("std::ops::Deref>::deref", "std::ops::DerefMut>::deref_mut", "std::ops::Deref::deref", "std::ops::DerefMut::deref_mut",
              "std::convert::AsRef::as_ref", "std::convert::AsMut::as_mut", "std::borrow::Borrow::borrow", "std::clone::Clone::clone", "std::convert::AsRef>::as_ref", "std::convert::AsMut>::as_mut",
              "std::borrow::Borrow>::borrow", "std::borrow::BorrowMut>::borrow_mut", "std::rc::Rc::new", "std::boxed::Box::new",
@@ -552,6 +586,11 @@ class Machine:
         if end == "into_iter" and ("IntoIterator" in c):
             if self.fb.by_path(c, self.crate) is not None and isinstance(a0, Enum):
                 return NOT                  # an iterator type of the crate: follow its own into_iter
+            if isinstance(a0, Enum) and getattr(a0, "name", None) in ("Range", "RangeInclusive") and len(a0.fields) >= 2 \
+                    and all(isinstance(x, int) and not isinstance(x, bool) for x in a0.fields[:2]) and abs(a0.fields[1] - a0.fields[0]) < 64:
+                return Iter(range(a0.fields[0], a0.fields[1] + (1 if a0.name == "RangeInclusive" else 0)))
+            if c.startswith("<I as ") or c.startswith("<&mut I as "):
+                return a0                   # the blanket impl for iterators: identity
             if isinstance(a0, (Iter, PeekableIt)) or (isinstance(a0, Enum) and getattr(a0, "adt", None) and "iter" in (getattr(a0, "adt", "") or "").lower()):
                 return a0
             if isinstance(a0, Enum) and getattr(a0, "name", None) in ("Range", "RangeInclusive") and len(a0.fields) >= 2 \
